@@ -49,7 +49,7 @@ def main():
     man = {
         "version": 1,
         "setup_cmd": "/venv/bin/python -m pvm.build plain && "
-                     "/venv/bin/python -m pvm.build asan",
+                     "/venv/bin/python -m pvm.build asanrec",
         "hooks": {
             "guard": "PYUNICORN_VERIF",
             "enable": "no source hooks: monitors attach from the harness "
